@@ -82,6 +82,7 @@ EXPORT errno_t _strremovews_s_chk(char *dest, rsize_t dmax,
 {
     char *orig_dest;
     char *orig_end;
+    const char *start;
     rsize_t orig_dmax;
 
     CHK_DEST_NULL("strremovews_s")
@@ -102,6 +103,7 @@ EXPORT errno_t _strremovews_s_chk(char *dest, rsize_t dmax,
     }
 
     orig_dest = dest;
+    start = dest;
     orig_dmax = dmax;
 
     /*
@@ -148,6 +150,8 @@ EXPORT errno_t _strremovews_s_chk(char *dest, rsize_t dmax,
     dest = orig_end;
     while ((*dest == ' ') || (*dest == '\t')) {
         *dest = '\0';
+        if (dest == start) /* all whitespace: do not walk in front of dest */
+            break;
         dest--;
     }
 
